@@ -5,7 +5,7 @@ from analysis.cfg import cfg
 from analysis.defuse import Tracer, du
 from analysis.guards import resolve_cond
 from analysis.panics import sites, guard_dominated
-from analysis.wbf import WriteBeforeFail
+from analysis.wbf import WriteBeforeFail, precede_on_every_path
 
 # boundary: below these the errors are story faults recorded by add_error, not host-call rejections
 BOUNDARY = {'Story::continue_internal', 'Story::cont', 'Story::continue_async', 'Story::continue_maximally'}
@@ -199,7 +199,9 @@ def run(chk, prog):
                 vals = ent[2]
                 vblocks = [bb for bb, t in f.calls() if callee_short(t) in vals]
                 first_writes = [b for b, _ in r['writes']]
-                ok = bool(vblocks) and all(any(g.dominates(v, b) for v in vblocks) for b in first_writes)
+                # (on every path: in a function that absorbed a new helper, every path that agrees with the Ok / Err of
+                # the helper's result - wbf.path_evading)
+                ok = bool(vblocks) and all(precede_on_every_path(prog, f, vblocks, b, tr) for b in first_writes)
                 chk.decide(R1, key, ok, 'table (pre-validated, re-validated): %s; %s dominates every write'
                            % (ent[1], vals),
                            '%s no longer calls %s before its first write: the error exit %s can again be reached after '
